@@ -408,6 +408,9 @@ CallGo(name, e, st) ==
       n  == Len(a.vs) IN
   CASE name = "p" ->       \* p(id, v): records the call, returns v unchanged
          IF n # 2 \/ a.vs[1].t # "int" THEN Unspec(s1) ELSE Ok(a.vs[2], Log(s1, [f |-> "p", id |-> a.vs[1].n, v |-> a.vs[2]]))
+    \* failc / faili: the same failure reported through a last result declared as a CONCRETE error type / as interface{}
+    [] name \in {"failc", "faili"} ->
+         IF n # 1 \/ a.vs[1].t # "int" THEN Unspec(s1) ELSE ErrW(Log(s1, [f |-> "fail", id |-> a.vs[1].n, v |-> Nil]))
     [] name = "fail" ->    \* fail(id): records the call, returns the sentinel error
          IF n # 1 \/ a.vs[1].t # "int" THEN Unspec(s1) ELSE ErrW(Log(s1, [f |-> "fail", id |-> a.vs[1].n, v |-> Nil]))
     [] name = "failrec" -> \* failrec(id): a (struct, error) helper: records the call, returns a struct AND the sentinel error
